@@ -9,6 +9,7 @@ import BiscuitModel.Model.Untrusted
 import BiscuitModel.Model.CApi
 import BiscuitModel.Model.TermParser
 import BiscuitModel.Model.ExprParser
+import BiscuitModel.Model.RuleParser
 import BiscuitModel.Model.WireDec
 open Lean Biscuit Biscuit.Codec
 
@@ -653,6 +654,51 @@ def runExprParse (j : Json) : P Json := do
 
 end ExprParseOp
 
+/-! ### itemparse (C14): rule bodies, rules, checks, policies -/
+section ItemParseOp
+open Biscuit.Printer Biscuit.TermParser Biscuit.ExprParser Biscuit.RuleParser
+
+def bodyJ (b : Body) : Json :=
+  Json.mkObj [("preds", Json.arr (b.preds.map spredJ).toArray),
+    ("exprs", Json.arr (b.exprs.map fun e => Json.arr ((opcodes e).map popJ).toArray).toArray),
+    ("scopes", Json.arr (b.scopes.map sscopeJ).toArray)]
+
+def resJ {α : Type} (r : Res α) (f : α → List (String × Json)) : Json :=
+  match r with
+  | .ok v rest => Json.mkObj ([("r", Json.str "ok"), ("rest", Json.num (JsonNumber.fromNat rest.length))] ++ f v)
+  | .err => Json.mkObj [("r", "err")]
+  | .fail => Json.mkObj [("r", "fail")]
+
+/-- `check` / `policy` / `rule`: the inner parser, then only blanks may be left (an `Error` otherwise) -/
+def eofAfter {α : Type} (r : Res α) : Res α :=
+  match r with
+  | .ok v rest => if (space0 rest).isEmpty then .ok v (space0 rest) else .err
+  | other => other
+
+def runItemParse (j : Json) : P Json := do
+  let text ← (← field j "text").getStr?
+  let kind ← (← field j "kind").getStr?
+  let dates ← (← getArr (← field j "dates")).mapM fun d => do
+    match ← getArr d with
+    | [t, v] => pure ((← t.getStr?).toList, ← getNat v)
+    | _ => throw "bad date entry"
+  let dateP : List Char → Option Nat := fun tok => (dates.find? (fun e => e.1 == tok)).map (·.2)
+  let s := text.toList
+  let fuel := fuelOf s
+  let bodies (bs : List Body) : Json := Json.arr (bs.map bodyJ).toArray
+  match kind with
+  | "body" => pure (resJ (pBody dateP fuel s) fun b => [("body", bodyJ b)])
+  | "checkbody" => pure (resJ (pCheckBody dateP fuel s) fun bs => [("bodies", bodies bs)])
+  | "rule" => pure (resJ (pRuleInner dateP fuel s) fun hb => [("head", spredJ hb.1), ("body", bodyJ hb.2)])
+  | "check" =>
+    pure (resJ (eofAfter (pCheckInner dateP fuel s)) fun kb =>
+      [("kind", Json.str (match kb.1 with | .one => "one" | .all => "all" | .reject => "reject")), ("bodies", bodies kb.2)])
+  | _ =>
+    pure (resJ (eofAfter (pPolicyInner dateP fuel s)) fun kb =>
+      [("kind", Json.str (match kb.1 with | .allow => "allow" | .deny => "deny")), ("bodies", bodies kb.2)])
+
+end ItemParseOp
+
 /-! ### keys (C17) -/
 section KeysOp
 open Biscuit.Keys
@@ -943,6 +989,7 @@ def handle (line : String) : String :=
       | "keys" => runKeys j
       | "termparse" => runTermParse j
       | "exprparse" => runExprParse j
+      | "itemparse" => runItemParse j
       | "untrusted" => runUntrusted j
       | "macros" => runMacros j
       | "capi" => runCApi j
